@@ -4,13 +4,15 @@
                      maintenance: SQL INSERT / UPDATE / DELETE and the cached/bulk insert paths.  One obligation per cell.
  X2 DELETE-THEN-INSERT in UPDATE's index maintenance loops the old entry is removed before the new one is inserted.
  X3 UNDO-ORDER        write entries are undone newest-first.
+ X4 KEY-SUFFIX        every function that builds multi-column index keys outside INSERT consults IndexDef::is_unique (INSERT stores
+                      non-unique entries under encode(cols) || row_key, unique ones under encode(cols)).
 Result equality between index scans and table scans is NOT decided.
 """
 import dmlrules
 
 TOLERATED = {
     "insert_cached:hnsw": "not demonstrated", "insert_batch:hnsw": "not demonstrated", "bulk_insert:hnsw": "not demonstrated",
-    "update_from:index": "not demonstrated", "update_from:hnsw": "not demonstrated",
+    "update_from:hnsw": "not demonstrated",
 }
 
 
@@ -22,3 +24,4 @@ def run(ctx):
     ctx.floor("matrix_cells", n, 14)
     dmlrules.index_delete_before_insert(ctx, "X2.DELETE-THEN-INSERT", [dmlrules.ENTRIES["update"]])
     dmlrules.undo_newest_first(ctx, "X3.UNDO-ORDER")
+    dmlrules.index_key_suffix_rule(ctx, "X4.KEY-SUFFIX", dmlrules.KEY_SUFFIX_TOLERATED)
